@@ -83,7 +83,9 @@ func scRegisterRecFac(s Scope, name string, fac RecordFactory) {
 
 func scLookupRecFacCur(s Scope, fieldNames []string) frt.Tuple2[RecordFactory, bool] {
 	sdic := SCSDict(s)
-	return frt.Pipe(dict.Values(sdic.RecFacMap), (func(_r0 []RecordFactory) frt.Tuple2[RecordFactory, bool] {
+	return frt.Pipe(frt.Pipe(frt.Pipe(dict.Keys(sdic.RecFacMap), slice.Sort), (func(_r0 []string) []RecordFactory {
+		return slice.Map((func(_r0 string) RecordFactory { return dict.Item(sdic.RecFacMap, _r0) }), _r0)
+	})), (func(_r0 []RecordFactory) frt.Tuple2[RecordFactory, bool] {
 		return slice.TryFind((func(_r0 RecordFactory) bool { return recFacMatch(fieldNames, _r0) }), _r0)
 	}))
 }
